@@ -19,6 +19,13 @@ The primitive value operations (`ops::add … ops::neg`, `ops::contains`, `ops::
 about the model holds for every implementation of them.  What is modelled on both sides is the
 duplicated control and coercion logic: the result of `and`/`or`, comparison chains, `not`, `in`,
 `neg`, list/tuple/map construction, evaluation order and error-or-not.
+
+Everything that can sit between constants but is *not* folded is part of the fragment too:
+attribute and item access, slices, conditional expressions (a missing `else` is the silent
+undefined), filters, tests and calls of global functions (all three with static keyword
+arguments).  `asConst` is `none` on them; their run-time meaning is again a parameter (`Prims`),
+the VM's own control around them (`handle_undefined`, the strict check of `Slice`, `JumpIfFalse`)
+is modelled.
 -/
 namespace MJ.Fold
 
@@ -26,7 +33,7 @@ namespace MJ.Fold
 inductive Err where
   | invalidOperation
   | undefinedError
-  | other (tag : Nat)
+  | named (kind : String)
   deriving DecidableEq, Repr
 
 /-- `UndefinedBehavior` -/
@@ -37,6 +44,8 @@ inductive Mode where
 /-- run-time values (the fragment reachable from the literal syntax) -/
 inductive V where
   | undef
+  /-- `UndefinedType::Silent` (a conditional expression without `else`) -/
+  | silent
   | none
   | bool (b : Bool)
   | int (n : Int)
@@ -69,7 +78,17 @@ mutual
     | neg (e : Expr)
     | bin (op : BinOp) (l r : Expr)
     | cmp (e : Expr) (ops : Chain)
-    | call (pos : Exprs) (kws : Kws)
+    | getAttr (e : Expr) (name : String)
+    | getItem (e : Expr) (idx : Expr)
+    | slice (e : Expr) (start stop step : OptExpr)
+    | ifExpr (test ifTrue : Expr) (ifFalse : OptExpr)
+    | filter (name : String) (e : Expr) (pos : Exprs) (kws : Kws)
+    | test (name : String) (e : Expr) (pos : Exprs) (kws : Kws)
+    /-- `CallType::Function(name)` -/
+    | call (name : String) (pos : Exprs) (kws : Kws)
+  inductive OptExpr where
+    | none
+    | some (e : Expr)
   inductive Exprs where
     | nil
     | cons (e : Expr) (es : Exprs)
@@ -109,8 +128,19 @@ structure Prims where
   isTrue : V → Bool
   /-- `ValueMap` filled by `insert` in the given order, then `Value::from_object` -/
   mkMap : List (V × V) → V
-  /-- the callee applied to the positional values and the keyword map filled in the given order -/
-  callKw : List V → List (String × V) → Except Err V
+  /-- `Value::get_attr_fast` -/
+  getAttr : V → String → Option V
+  /-- `Value::get_item_opt(container, index)` -/
+  getItem : V → V → Option V
+  /-- `ops::slice(value, start, stop, step)` -/
+  slice : V → V → V → V → Except Err V
+  /-- the global function `name` applied to the positional values and the keyword map filled in
+      the given order (`CallFunction`) -/
+  callKw : Mode → String → List V → List (String × V) → Except Err V
+  /-- `ApplyFilter(name)`: the filter applied to the subject followed by the positional values -/
+  filter : Mode → String → List V → List (String × V) → Except Err V
+  /-- `PerformTest(name)` -/
+  test : Mode → String → List V → List (String × V) → Except Err Bool
 
 abbrev Env := String → Option V
 
@@ -205,7 +235,14 @@ mutual
       match asConst e with
       | some left => asConstChain left ops
       | none => none
-    | .call _ _ => none
+    -- `_ => None`
+    | .getAttr _ _ => none
+    | .getItem _ _ => none
+    | .slice _ _ _ _ => none
+    | .ifExpr _ _ _ => none
+    | .filter _ _ _ _ => none
+    | .test _ _ _ _ => none
+    | .call _ _ _ => none
   /-- the `for op in &c.ops` loop of the `Compare` arm; an operand is only looked at when reached -/
   def asConstChain (left : V) : Chain → Option V
     | .nil => some (.bool true)
@@ -324,6 +361,40 @@ def compareAndPreserve (op : CmpOp) (a b : V) : Except Err Bool :=
         | .error e => .error e
         | .ok v => .ok (if op = .notIn then !P.isTrue v else P.isTrue v)
 
+/-- `Value::is_undefined` -/
+def isUndefined : V → Bool
+  | .undef | .silent => true
+  | _ => false
+
+/-- `UndefinedBehavior::handle_undefined(parent_was_undefined)` -/
+def handleUndefined (parentUndefined : Bool) : Except Err V :=
+  match m, parentUndefined with
+  | .chainable, _ => .ok .undef
+  | _, false => .ok .undef
+  | _, true => .error .undefinedError
+
+/-- `Instruction::GetAttr(name)` -/
+def getAttrInstr (v : V) (name : String) : Except Err V :=
+  match P.getAttr v name with
+  | some r => .ok r
+  | none => handleUndefined m (isUndefined v)
+
+/-- `Instruction::GetItem` (container pushed first) -/
+def getItemInstr (container idx : V) : Except Err V :=
+  match P.getItem container idx with
+  | some r => .ok r
+  | none => handleUndefined m (isUndefined container)
+
+/-- `Instruction::Slice` -/
+def sliceInstr (v start stop step : V) : Except Err V :=
+  if isUndefined v ∧ m = .strict then .error .undefinedError else P.slice v start stop step
+
+/-- `Instruction::PerformTest`: the boolean is pushed as a value -/
+def testInstr (name : String) (args : List V) (ks : List (String × V)) : Except Err V :=
+  match P.test m name args ks with
+  | .error e => .error e
+  | .ok b => .ok (.bool b)
+
 variable (ρ : Env)
 
 /-- `Instruction::Lookup` -/
@@ -378,12 +449,60 @@ mutual
       match evalRt e with
       | .error e => .error e
       | .ok left => evalRtChain left ops
-    | .call pos kws =>
+    | .getAttr e name =>
+      match evalRt e with
+      | .error e => .error e
+      | .ok v => getAttrInstr P m v name
+    | .getItem e idx =>
+      match evalRt e with
+      | .error e => .error e
+      | .ok v => match evalRt idx with
+        | .error e => .error e
+        | .ok i => getItemInstr P m v i
+    | .slice e a b c =>
+      -- a missing bound is `LoadConst(none)`
+      match evalRt e with
+      | .error e => .error e
+      | .ok v => match evalRtOpt .none a with
+        | .error e => .error e
+        | .ok av => match evalRtOpt .none b with
+          | .error e => .error e
+          | .ok bv => match evalRtOpt .none c with
+            | .error e => .error e
+            | .ok cv => sliceInstr P m v av bv cv
+    | .ifExpr c t f =>
+      -- test; JumpIfFalse(else); true; Jump(end); else: false | LoadConst(silent undefined); end:
+      match evalRt c with
+      | .error e => .error e
+      | .ok cv => match isTrueM P m cv with
+        | .error e => .error e
+        | .ok b => if b then evalRt t else evalRtOpt .silent f
+    | .filter name e pos kws =>
+      match evalRt e with
+      | .error e => .error e
+      | .ok v => match evalRtList pos with
+        | .error e => .error e
+        | .ok ps => match evalRtKws kws with
+          | .error e => .error e
+          | .ok ks => P.filter m name (v :: ps) ks
+    | .test name e pos kws =>
+      match evalRt e with
+      | .error e => .error e
+      | .ok v => match evalRtList pos with
+        | .error e => .error e
+        | .ok ps => match evalRtKws kws with
+          | .error e => .error e
+          | .ok ks => testInstr P m name (v :: ps) ks
+    | .call name pos kws =>
       match evalRtList pos with
       | .error e => .error e
       | .ok ps => match evalRtKws kws with
         | .error e => .error e
-        | .ok ks => P.callKw ps ks
+        | .ok ks => P.callKw m name ps ks
+  /-- an optional operand; `dflt` is what the code generator loads when it is missing -/
+  def evalRtOpt (dflt : V) : OptExpr → Except Err V
+    | .none => .ok dflt
+    | .some e => evalRt e
   def evalRtList : Exprs → Except Err (List V)
     | .nil => .ok []
     | .cons e es =>
@@ -487,16 +606,67 @@ mutual
       (match evalC e with
       | .error e => .error e
       | .ok left => evalCChain left ops)
-    | .call pos kws =>
+    | .getAttr e name =>
+      match evalC e with
+      | .error e => .error e
+      | .ok v => getAttrInstr P m v name
+    | .getItem e idx =>
+      match evalC e with
+      | .error e => .error e
+      | .ok v => match evalC idx with
+        | .error e => .error e
+        | .ok i => getItemInstr P m v i
+    | .slice e a b c =>
+      match evalC e with
+      | .error e => .error e
+      | .ok v => match evalCOpt .none a with
+        | .error e => .error e
+        | .ok av => match evalCOpt .none b with
+          | .error e => .error e
+          | .ok bv => match evalCOpt .none c with
+            | .error e => .error e
+            | .ok cv => sliceInstr P m v av bv cv
+    | .ifExpr c t f =>
+      match evalC c with
+      | .error e => .error e
+      | .ok cv => match isTrueM P m cv with
+        | .error e => .error e
+        | .ok b => if b then evalC t else evalCOpt .silent f
+    | .filter name e pos kws =>
+      match evalC e with
+      | .error e => .error e
+      | .ok v => match evalCList pos with
+        | .error e => .error e
+        | .ok ps =>
+          match constKws kws with
+          | some ks => P.filter m name (v :: ps) ks
+          | none => match evalCKws kws with
+            | .error e => .error e
+            | .ok ks => P.filter m name (v :: ps) ks
+    | .test name e pos kws =>
+      match evalC e with
+      | .error e => .error e
+      | .ok v => match evalCList pos with
+        | .error e => .error e
+        | .ok ps =>
+          match constKws kws with
+          | some ks => testInstr P m name (v :: ps) ks
+          | none => match evalCKws kws with
+            | .error e => .error e
+            | .ok ks => testInstr P m name (v :: ps) ks
+    | .call name pos kws =>
       match evalCList pos with
       | .error e => .error e
       | .ok ps =>
         -- static keyword arguments: collected at compile time into one `LoadConst(Kwargs)`
         match constKws kws with
-        | some ks => P.callKw ps ks
+        | some ks => P.callKw m name ps ks
         | none => match evalCKws kws with
           | .error e => .error e
-          | .ok ks => P.callKw ps ks
+          | .ok ks => P.callKw m name ps ks
+  def evalCOpt (dflt : V) : OptExpr → Except Err V
+    | .none => .ok dflt
+    | .some e => evalC e
   def evalCList : Exprs → Except Err (List V)
     | .nil => .ok []
     | .cons e es =>
@@ -558,7 +728,7 @@ end
 /-! ## well-formedness guaranteed by lexer and parser -/
 
 mutual
-  /-- constants are never `undefined` (no literal denotes it) and a `Compare` node has at least
+  /-- constants are never the (default) `undefined` (no literal denotes it) and a `Compare` node has at least
       one operator (the parser builds it only for two or more) -/
   def Expr.WF : Expr → Prop
     | .const v => v ≠ .undef
@@ -570,7 +740,16 @@ mutual
     | .neg e => e.WF
     | .bin _ l r => l.WF ∧ r.WF
     | .cmp e ops => e.WF ∧ ops ≠ .nil ∧ ops.WF
-    | .call pos kws => pos.WF ∧ kws.WF
+    | .getAttr e _ => e.WF
+    | .getItem e i => e.WF ∧ i.WF
+    | .slice e a b c => e.WF ∧ a.WF ∧ b.WF ∧ c.WF
+    | .ifExpr c t f => c.WF ∧ t.WF ∧ f.WF
+    | .filter _ e pos kws => e.WF ∧ pos.WF ∧ kws.WF
+    | .test _ e pos kws => e.WF ∧ pos.WF ∧ kws.WF
+    | .call _ pos kws => pos.WF ∧ kws.WF
+  def OptExpr.WF : OptExpr → Prop
+    | .none => True
+    | .some e => e.WF
   def Exprs.WF : Exprs → Prop
     | .nil => True
     | .cons e es => e.WF ∧ es.WF
@@ -623,7 +802,16 @@ mutual
     | .neg a, e' => (∃ a', e' = .neg a' ∧ Hoist a a') ∨ HoistHere P ρ (.neg a) e'
     | .bin op l r, e' => (∃ l' r', e' = .bin op l' r' ∧ Hoist l l' ∧ Hoist r r') ∨ HoistHere P ρ (.bin op l r) e'
     | .cmp a ops, e' => (∃ a' ops', e' = .cmp a' ops' ∧ Hoist a a' ∧ HoistChain ops ops') ∨ HoistHere P ρ (.cmp a ops) e'
-    | .call pos kws, e' => ∃ pos' kws', e' = .call pos' kws' ∧ HoistList pos pos' ∧ HoistKws kws kws'
+    | .getAttr a n, e' => ∃ a', e' = .getAttr a' n ∧ Hoist a a'
+    | .getItem a i, e' => ∃ a' i', e' = .getItem a' i' ∧ Hoist a a' ∧ Hoist i i'
+    | .slice a x y z, e' => ∃ a' x' y' z', e' = .slice a' x' y' z' ∧ Hoist a a' ∧ HoistOpt x x' ∧ HoistOpt y y' ∧ HoistOpt z z'
+    | .ifExpr c t f, e' => ∃ c' t' f', e' = .ifExpr c' t' f' ∧ Hoist c c' ∧ Hoist t t' ∧ HoistOpt f f'
+    | .filter n a pos kws, e' => ∃ a' pos' kws', e' = .filter n a' pos' kws' ∧ Hoist a a' ∧ HoistList pos pos' ∧ HoistKws kws kws'
+    | .test n a pos kws, e' => ∃ a' pos' kws', e' = .test n a' pos' kws' ∧ Hoist a a' ∧ HoistList pos pos' ∧ HoistKws kws kws'
+    | .call n pos kws, e' => ∃ pos' kws', e' = .call n pos' kws' ∧ HoistList pos pos' ∧ HoistKws kws kws'
+  def HoistOpt : OptExpr → OptExpr → Prop
+    | .none, o' => o' = .none
+    | .some e, o' => ∃ e', o' = .some e' ∧ Hoist e e'
   def HoistList : Exprs → Exprs → Prop
     | .nil, es' => es' = .nil
     | .cons e es, es' => ∃ e' es'', es' = .cons e' es'' ∧ Hoist e e' ∧ HoistList es es''
